@@ -489,3 +489,27 @@ RELOAD_KNOB_BLOCK = Contract(
     extra=dict(ENG, variant="restore-block", block=dict(first="for vv, rr, aa in zip(self.vary, knob_values, mask_input):", count=1)),
     note="block contract: reload writes the raw logged value (bit-exact: no weight conversion) and flag of EVERY knob")
 VARIANTS += [RELOAD_KNOB_BLOCK]
+
+
+# ----------------------------------------------------------------------------- Optimize._log: all columns stay aligned   (C15)
+from pyvc.logshape import ColumnAlignEngine, store_methods      # noqa: E402
+
+
+def _log_methods():
+    _, cls = _extract.module(MO).find("Optimize.__init__")
+    return sorted(store_methods(cls, "_log"))
+
+
+LOG_METHODS = _log_methods()
+# functions that do not raise on the values they are given here and do not touch the log (trusted; listed in the evidence)
+LOG_TOTAL = ("len", "hasattr", "isinstance", "_bool_array_to_string", "''.join", "range",
+             # after a successful solver.step the merit function has just written exactly these values to the containers:
+             # writing them again / reading them back is assumed not to raise (deterministic containers)
+             "self.set_knobs_from_x", "self._extract_knob_values")
+LOG_ALIGNED = [Contract(module=MO, qualname=f"Optimize.{m}", params={}, min_obligations=1,
+                        extra=dict(engine=ColumnAlignEngine, variant="log-aligned", store="_log", total_calls=LOG_TOTAL,
+                                   **(dict(scan_package="xdeps") if m == "__init__" else {})),
+                        note="class invariant Aligned: every column of self._log has the same length at every exit of the method, "
+                             "normal or exceptional (a row is appended completely or not at all)")
+               for m in LOG_METHODS]
+VARIANTS += LOG_ALIGNED
